@@ -322,12 +322,26 @@ pub fn check_c19(cx: &C19Ctx, out: &mut Outcome) {
         // (parent reset while the frame was queued) stay parked for ever with their queued frames
         let pushes_submitted = cx.events.iter().filter(|e| e.side == *side && matches!(&e.api, Api::SentHead { kind: "push-request", .. })).count();
         let pushes_on_wire = cx.tap.frames.iter().filter(|f| f.from == *side && matches!(&f.frame, Ok(Frame::Push { .. }))).count();
-        if pushes_submitted > pushes_on_wire && st.store_slab_len > st.num_local_reset_streams {
+        if pushes_submitted > pushes_on_wire && (st.store_slab_len > st.num_local_reset_streams || st.send_buffer_len > 0 || (st.send_window >= 0 && st.send_available != st.send_window)) {
             out.fail(
                 "C19",
                 "idle/orphaned-pushes",
                 "C19/pushed-streams-orphaned-when-push-promise-never-written",
                 format!("{}: {} push_request() calls succeeded but only {} PUSH_PROMISE frames reached the wire (parent reset first); {} stream records, {} queued frames and {} bytes of connection capacity stay parked", side.name(), pushes_submitted, pushes_on_wire, st.store_slab_len, st.send_buffer_len, st.send_window - st.send_available),
+            );
+            continue;
+        }
+        // second known root cause with its own signature: promised streams the client application never
+        // took (its PushPromises handle went away with the parent) are released without returning what
+        // they had buffered
+        let pushes_delivered = cx.tap.frames.iter().filter(|f| f.from != *side && f.t_d.is_some() && matches!(&f.frame, Ok(Frame::Push { .. }))).count();
+        let pushes_taken = cx.events.iter().filter(|e| e.side == *side && matches!(&e.api, Api::RecvHead { kind: "push-request", .. })).count();
+        if pushes_delivered > pushes_taken && (st.recv_in_flight != 0 || (st.recv_buffer_len != 0 && st.store_slab_len <= st.num_local_reset_streams)) {
+            out.fail(
+                "C19",
+                "idle/unclaimed-pushes",
+                "C19/unclaimed-pushed-streams-leak-buffered-events-and-window",
+                format!("{}: {} PUSH_PROMISE frames were delivered but the application only took {}; {} buffered events and {} bytes of connection receive window stay allocated with no stream left to release them", side.name(), pushes_delivered, pushes_taken, st.recv_buffer_len, st.recv_in_flight),
             );
             continue;
         }
@@ -345,7 +359,10 @@ pub fn check_c19(cx: &C19Ctx, out: &mut Outcome) {
         if st.num_local_reset_streams > cx.reset_max[i] {
             out.fail("C19", "idle/reset-memory", "C19/reset-memory-over-quota", format!("{}: {} remembered reset streams, quota {}", side.name(), st.num_local_reset_streams, cx.reset_max[i]));
         }
-        if st.recv_buffer_len != 0 || st.send_buffer_len != 0 {
+        // (events already buffered on a remembered locally-reset stream stay with that record until it
+        // expires — part of the bounded reset memory, not demanded to be empty)
+        let recv_buf_unexplained = st.recv_buffer_len != 0 && st.num_local_reset_streams == 0;
+        if recv_buf_unexplained || st.send_buffer_len != 0 {
             out.fail("C19", "idle/buffers", "C19/buffers-not-empty", format!("{}: recv buffer {} / send buffer {} entries at quiescence with nothing left to do", side.name(), st.recv_buffer_len, st.send_buffer_len));
         }
         if st.num_send_streams != 0 || st.num_recv_streams != 0 {
